@@ -425,6 +425,8 @@ def pat_match(toks, i, pat):
                     if depth == 0:
                         break
                     depth -= 1
+                if p[1] == 'X' and depth == 0 and t.kind == 'op' and t.text == ';':
+                    break   # $X.. binds one expression: it never crosses a statement boundary
                 tj += 1
                 if depth == 0:
                     env[p] = (ti, tj)
@@ -444,7 +446,9 @@ def apply_rules(text, rules, log, where=''):
     (leftmost first, restarting after each application; a replacement must not re-match its own
     pattern).  Each application is logged.  opts: {'min': n} -> at least n applications required."""
     counts = [0] * len(rules)
-    parsed = [(rid, parse_pattern(p), r) for rid, p, r, _ in rules]
+    # a pattern starting with `^` only matches at the start of a statement
+    parsed = [(rid, parse_pattern(p.lstrip()[1:] if p.lstrip().startswith('^') else p), r) for rid, p, r, _ in rules]
+    anchored = [p.lstrip().startswith('^') for _, p, _, _ in rules]
     guard = 0
     changed = True
     while changed:
@@ -457,6 +461,8 @@ def apply_rules(text, rules, log, where=''):
             for i in range(len(toks)):
                 # a pattern that starts with a plain identifier never matches a field / path segment
                 if i > 0 and toks[i - 1].text in ('.', '::') and pat and re.match(r'[A-Za-z_]', pat[0]):
+                    continue
+                if anchored[idx] and i > 0 and toks[i - 1].text not in (';', '{', '}'):
                     continue
                 m = pat_match(toks, i, pat)
                 if not m:
